@@ -206,6 +206,12 @@ def rt_inputs(rng):
             if i != j:
                 yield a + b2
                 yield a + b2[:5] + a[:6]
+    # nested / repeated macro envelopes
+    for a in (H5, H6):
+        for b2 in (H5, H6):
+            yield a + b2 + T
+            yield a + b2 + b'AB' + T
+            yield a + b2 + b'AB' + T + T
     # runs of EDIFACT / X12 / C40 characters with a short tail the mode cannot carry (end-of-data rules)
     for head in (b'A.B,C-D/E+F:', b'ABCD.EFGH/', b'ABCDEFGHIJKL', b'AB*CD>EF GH'):
         for t in (b'a', b'ab', b'abc', b'ab1', b'\xe1', b'12', b'1'):
@@ -220,12 +226,6 @@ def rt_inputs(rng):
     yield H5
     yield H6
     yield T
-    # nested / repeated envelopes
-    for a in (H5, H6):
-        for b2 in (H5, H6):
-            yield a + b2 + T
-            yield a + b2 + b'AB' + T
-            yield a + b2 + b'AB' + T + T
     for n in (1, 2, 3, 4, 5, 7, 8, 9, 11, 20, 43, 44, 45, 100, 249, 250, 251):
         yield bytes(rng.randrange(256) for _ in range(n))
         yield bytes(rng.choice(b'0123456789') for _ in range(n))
